@@ -218,9 +218,19 @@ pub fn par_ranges(prop: &str, total: u64, chunk: u64, f: impl Fn(usize, u64, u64
 
 /// reduce a panic message to a stable site string (file:line if present)
 pub fn panic_site(msg: &str) -> String {
+    // a trap raised by a hook: name the unsafe site, not the line of the hook module
+    if let Some(rest) = msg.strip_prefix("verif-hooks: unsafe precondition violated at ") {
+        let site = rest.split(": ").next().unwrap_or("unknown");
+        return format!("hook:{site}");
+    }
     if let Some(i) = msg.rfind(" at ") {
         let loc = &msg[i + 4..];
-        // strip absolute prefix up to src/
+        // keep "<crate dir>/src/file.rs:line" for dependencies and the math crate, "src/file.rs:line" for the crate under test
+        if let Some(j) = loc.rfind("/src/") {
+            let parent = loc[..j].rsplit('/').next().unwrap_or("");
+            let versioned = parent.chars().any(|c| c.is_ascii_digit()) || parent == "yuvxyb-math";
+            return if versioned { format!("{parent}{}", &loc[j..]) } else { loc[j + 1..].to_string() };
+        }
         if let Some(j) = loc.find("src/") {
             return loc[j..].to_string();
         }
